@@ -7,6 +7,8 @@ ENGINES = [
      "kind_free_text": "real kv.DB / Pebble KV driven by rapid generators against the sequential reference model in harness/model"},
     {"name": "leaderx", "path": "harness/leaderx", "serves_properties": ["C08", "C14", "C15"],
      "kind_free_text": "real LeaderController (RF=1, real WAL and Pebble through wrapping factories with gates) driven by rapid state machines"},
+    {"name": "clusterx", "path": "harness/clusterx", "serves_properties": ["C01", "C02", "C03", "C04", "C05"],
+     "kind_free_text": "3-5 real storage nodes + the real coordinator ShardController in one process over a harness-owned wire; generated fault programs; oracles over the recorded history"},
     {"name": "walx", "path": "harness/walx", "serves_properties": ["C09", "C10"],
      "kind_free_text": "rapid state machine + crash/corruption image generator over the real WAL against a list model"},
 ]
@@ -97,5 +99,35 @@ META = {
         "level_text": "Generated write histories with neighbouring index names; every index query path compared with a sorted "
                       "reference restricted to that index.",
         "level_note": "Leader level (Read/List/RangeScan of the real LeaderController).",
+    },
+    "C01": {
+        "engine": "clusterx", "technique": "stateful property-based testing with injected faults over an in-process cluster (history-based oracles)",
+        "design_ref": "DESIGN.md 4.4, 5 C01",
+        "level_text": 'Generated fault programs against real nodes and the real shard controller; acknowledged writes checked against the final committed log and the final state against a reference fold of that log.',
+        "level_note": "Real goroutines and real 100 ms/1 s coordinator timers: schedules are explored, not enumerated; node crashes are graceful stops here.",
+    },
+    "C02": {
+        "engine": "clusterx", "technique": "stateful property-based testing with injected faults over an in-process cluster (history-based oracles)",
+        "design_ref": "DESIGN.md 4.4, 5 C02",
+        "level_text": 'Same engine; the recorded concurrent client history is checked against the committed log as the only candidate linearization, with real-time windows for reads.',
+        "level_note": "Real goroutines and real 100 ms/1 s coordinator timers: schedules are explored, not enumerated; node crashes are graceful stops here.",
+    },
+    "C03": {
+        "engine": "clusterx", "technique": "stateful property-based testing with injected faults over an in-process cluster (history-based oracles)",
+        "design_ref": "DESIGN.md 4.4, 5 C03",
+        "level_text": 'Same engine; per-ack durability and identity checks on the wire, pairwise log and database agreement at the end.',
+        "level_note": "Real goroutines and real 100 ms/1 s coordinator timers: schedules are explored, not enumerated; node crashes are graceful stops here.",
+    },
+    "C04": {
+        "engine": "clusterx", "technique": "stateful property-based testing with injected faults over an in-process cluster (history-based oracles)",
+        "design_ref": "DESIGN.md 4.4, 5 C04",
+        "level_text": "Same engine; a fenced node's log head, acks and served requests are checked against the NewTerm answers recorded on the wire.",
+        "level_note": "Real goroutines and real 100 ms/1 s coordinator timers: schedules are explored, not enumerated; node crashes are graceful stops here.",
+    },
+    "C05": {
+        "engine": "clusterx", "technique": "stateful property-based testing with injected faults over an in-process cluster (history-based oracles)",
+        "design_ref": "DESIGN.md 4.4, 5 C05",
+        "level_text": 'Same engine; election safety checked on the recorded coordinator events and node answers.',
+        "level_note": "Real goroutines and real 100 ms/1 s coordinator timers: schedules are explored, not enumerated; node crashes are graceful stops here.",
     },
 }
